@@ -3,7 +3,7 @@
    Tables, dispatch bounds and low-end constants come from gen/Tables.v = the current source text of /repo. *)
 From Coq Require Import ZArith.
 Require Import C12.gen.Tables.
-From C12 Require Import PrimeB Model ProofsSweep ProofsTable ProofsTab12 ProofsPrimes16 ProofsNext ProofsFactor ProofsDivisors ProofsPower ProofsComplete ProofsSetForms.
+From C12 Require Import PrimeB Model ProofsSweep ProofsTable ProofsTab12 ProofsPrimes16 ProofsNext ProofsFactor ProofsDivisors ProofsDivisorsNoDup ProofsPower ProofsComplete ProofsSetForms.
 Local Open Scope Z_scope.
 
 Theorem C12_isprime_exact_below_65536 : Isprime_table_stmt.          Proof. exact isprime_table. Qed.
@@ -54,3 +54,5 @@ Theorem C12_write_sign_and_factor_list : Write_stmt.                       Proof
 Print Assumptions C12_write_sign_and_factor_list.
 Theorem C12_set_one_container_distinct_factors : Set1_stmt.                Proof. exact set1_correct. Qed.
 Print Assumptions C12_set_one_container_distinct_factors.
+Theorem C12_divisors_no_repetition : Divisors_NoDup_stmt.                    Proof. exact divisors_nodup. Qed.
+Print Assumptions C12_divisors_no_repetition.
